@@ -18,19 +18,12 @@ Open Scope list_scope.
 Fixpoint sexp_toks (e : sexp) : list token :=
   match e with
   | SAtom t => [t]
-  | SList l => TLP :: (fix go (l : list sexp) : list token :=
-                         match l with [] => [] | x :: r => sexp_toks x ++ go r end) l ++ [TRP]
+  | SList l => TLP :: flat_map sexp_toks l ++ [TRP]
   end.
 
 Definition sexps_toks (l : list sexp) : list token := flat_map sexp_toks l.
 
-Lemma sexp_toks_list : forall l, sexp_toks (SList l) = TLP :: sexps_toks l ++ [TRP].
-Proof.
-  intros l. cbn [sexp_toks]. f_equal. f_equal. induction l as [|x r IH]; [reflexivity|].
-  cbn [flat_map sexps_toks]. unfold sexps_toks in IH. rewrite <- IH. reflexivity.
-Qed.
-
-Definition atom_token (t : token) : Prop := t <> TLP /\ t <> TRP.
+Definition atom_tokenb (t : token) : bool := match t with TLP | TRP => false | _ => true end.
 
 Section sexp_induction.
   Variable P : sexp -> Prop.
@@ -44,45 +37,168 @@ Section sexp_induction.
     end.
 End sexp_induction.
 
-Fixpoint atoms_ok (e : sexp) : Prop :=
+Fixpoint atoms_ok (e : sexp) : bool :=
   match e with
-  | SAtom t => atom_token t
-  | SList l => (fix go (l : list sexp) : Prop := match l with [] => True | x :: r => atoms_ok x /\ go r end) l
+  | SAtom t => atom_tokenb t
+  | SList l => forallb atoms_ok l
   end.
 
-Lemma atoms_ok_list : forall l, atoms_ok (SList l) <-> Forall atoms_ok l.
-Proof.
-  intros l. cbn [atoms_ok]. induction l as [|x r IH]; [split; [constructor|auto]|].
-  split.
-  - intros [H1 H2]. constructor; [exact H1|apply IH; exact H2].
-  - intros H. inversion H; subst. split; [assumption|apply IH; assumption].
-Qed.
-
-Lemma parse_sexp_toks : forall e, atoms_ok e -> forall r cur st,
+Lemma parse_sexp_toks : forall e, atoms_ok e = true -> forall r cur st,
   parse_toks (sexp_toks e ++ r) cur st = parse_toks r (e :: cur) st.
 Proof.
-  apply (sexp_ind2 (fun e => atoms_ok e -> forall r cur st, parse_toks (sexp_toks e ++ r) cur st = parse_toks r (e :: cur) st)).
-  - intros t [H1 H2] r cur st. cbn [sexp_toks app]. destruct t; try reflexivity; congruence.
-  - intros l IH Hok r cur st. apply atoms_ok_list in Hok. rewrite sexp_toks_list.
-    cbn [app parse_toks].
-    (* the elements, accumulated in reverse *)
-    assert (G : forall l acc, Forall (fun e => atoms_ok e -> forall r cur st, parse_toks (sexp_toks e ++ r) cur st = parse_toks r (e :: cur) st) l ->
-                Forall atoms_ok l ->
-                parse_toks ((sexps_toks l ++ [TRP]) ++ r) acc (cur :: st) = parse_toks r (SList (rev acc ++ l) :: cur) st).
+  apply (sexp_ind2 (fun e => atoms_ok e = true -> forall r cur st, parse_toks (sexp_toks e ++ r) cur st = parse_toks r (e :: cur) st)).
+  - intros t H r cur st. cbn [sexp_toks app]. destruct t; try reflexivity; discriminate.
+  - intros l IH Hok r cur st. cbn [atoms_ok] in Hok. cbn [sexp_toks app parse_toks].
+    assert (G : forall l acc, Forall (fun e => atoms_ok e = true -> forall r cur st, parse_toks (sexp_toks e ++ r) cur st = parse_toks r (e :: cur) st) l ->
+                forallb atoms_ok l = true ->
+                parse_toks ((flat_map sexp_toks l ++ [TRP]) ++ r) acc (cur :: st) = parse_toks r (SList (rev acc ++ l) :: cur) st).
     { clear. induction l as [|x l' IHl]; intros acc HF Hok.
-      - cbn [sexps_toks flat_map app parse_toks]. rewrite app_nil_r. reflexivity.
-      - inversion HF; subst. inversion Hok; subst. cbn [sexps_toks flat_map]. rewrite <- !app_assoc.
-        rewrite (H1 H3). fold (sexps_toks l'). rewrite app_assoc. rewrite (IHl (x :: acc) H2 H4).
+      - cbn [flat_map app parse_toks]. rewrite app_nil_r. reflexivity.
+      - inversion HF; subst. cbn [forallb] in Hok. apply andb_true_iff in Hok as [Hx Hl].
+        cbn [flat_map]. rewrite <- !app_assoc.
+        rewrite (H1 Hx). rewrite app_assoc. rewrite (IHl (x :: acc) H2 Hl).
         cbn [rev]. rewrite <- app_assoc. reflexivity. }
-    rewrite <- app_assoc. rewrite app_assoc. apply (G l [] IH Hok).
+    apply (G l [] IH Hok).
 Qed.
 
-Lemma parse_one : forall e, atoms_ok e -> parse_toks (sexp_toks e) [] [] = Some [e].
+Lemma parse_one : forall e, atoms_ok e = true -> parse_toks (sexp_toks e) [] [] = Some [e].
 Proof.
   intros e H. rewrite <- (app_nil_r (sexp_toks e)). rewrite (parse_sexp_toks e H). reflexivity.
 Qed.
 
-Lemma read_from_lexes : forall cfg text e, atoms_ok e -> lexes cfg text (sexp_toks e) -> read_sexps cfg text = Some [e].
+Lemma read_from_lexes : forall cfg text e, atoms_ok e = true -> lexes cfg text (sexp_toks e) -> read_sexps cfg text = Some [e].
 Proof.
   intros cfg text e Hok Hl. unfold read_sexps. rewrite (lexes_lex cfg text _ Hl). apply parse_one. exact Hok.
 Qed.
+
+(* ---------------------------------------------------------------------------------------------
+   (2) the printers, token by token *)
+Local Notation "a +++ b" := (String.append a b) (at level 60, right associativity).
+
+Lemma append_assoc : forall a b c : string, (a +++ b) +++ c = a +++ (b +++ c).
+Proof. exact app_assoc_str. Qed.
+
+Lemma concat_empty_cons : forall x xs, String.concat "" (x :: xs) = x +++ String.concat "" xs.
+Proof.
+  intros x xs. destruct xs as [|y ys]; cbn [String.concat].
+  - rewrite app_empty_r. reflexivity.
+  - reflexivity.
+Qed.
+
+Lemma in_bars_not_self : forall s, String.eqb (in_bars s) s = false.
+Proof.
+  intros s. apply String.eqb_neq. intro H. apply (f_equal String.length) in H.
+  unfold in_bars, bar in H. rewrite !length_app in H. simpl in H. lia.
+Qed.
+
+Section Render.
+Variable cfg : lexcfg.
+Hypothesis Hok : cfg_ok cfg.
+Hypothesis Hsub : simple_sub cfg.
+Hypothesis Hres : forall s, mem_str s (lc_reserved cfg) = true -> mem_str s (v_table repaired) = true.
+Hypothesis Hspace : lc_white cfg " "%char = true.
+Hypothesis Has : classify cfg "as" = TRes "as".
+Hypothesis Hminus : classify cfg "-" = TSym "-".
+Hypothesis Hslash : classify cfg "/" = TSym "/".
+
+(* what may follow a printed token: a blank, a closing parenthesis, or the end *)
+Definition delim (rest : string) : Prop :=
+  match rest with EmptyString => True | String c _ => c = " "%char \/ c = c_rp end.
+
+Lemma delim_stops_sym : forall rest, delim rest -> stops (lc_symchar cfg) rest.
+Proof.
+  intros [|c r] H; [exact I|]. simpl in *.
+  destruct (lc_symchar cfg c) eqn:E; [|reflexivity].
+  apply (ok_symchar_special cfg Hok) in E. destruct H as [H|H]; subst c; vm_compute in E; discriminate.
+Qed.
+
+Lemma delim_stops_num : forall rest, delim rest -> stops (fun c => is_digit c || Ascii.eqb c c_dot) rest.
+Proof. intros [|c r] H; [exact I|]. simpl in *. destruct H as [H|H]; subst c; reflexivity. Qed.
+
+Lemma delim_space : forall r, delim (String " "%char r).
+Proof. intros r. left. reflexivity. Qed.
+Lemma delim_rp : forall r, delim (String c_rp r).
+Proof. intros r. right. reflexivity. Qed.
+
+(* names *)
+Definition name_tok (s : string) : token :=
+  if String.eqb (protectName repaired s false) s then TSym s else TQSym s.
+
+Lemma norm_name_tok : forall s, norm_token (name_tok s) = TSym s.
+Proof. intros s. unfold name_tok. destruct (String.eqb _ s); reflexivity. Qed.
+
+Lemma classify_bare : forall s, legal_symbol s -> protectName repaired s false = s ->
+  classify cfg s = TSym s /\ nonempty s = true /\ str_forallb (lc_symchar cfg) s = true /\ first_is_digit s = false.
+Proof.
+  intros s Hl E. destruct (protect_cases repaired s) as [E' | (_ & Hq & Hd & Hr & He & Hm)].
+  - rewrite E in E'. exfalso. pose proof (in_bars_not_self s) as N. rewrite <- E' in N. rewrite String.eqb_refl in N. discriminate.
+  - assert (Hn : nonempty s = true) by (apply He; reflexivity).
+    repeat split.
+    + unfold classify. destruct (lc_neg_numerals cfg && neg_numlike s) eqn:EN.
+      * apply andb_true_iff in EN as [_ N2]. rewrite (neg_numlike_minus_digit s N2) in Hm.
+        specialize (Hm eq_refl). discriminate.
+      * destruct (mem_str s (lc_reserved cfg)) eqn:ER; [|reflexivity].
+        unfold isReservedWord in Hr. rewrite (Hres s ER) in Hr. discriminate.
+    + exact Hn.
+    + apply (str_forallb_impl is_simple_char); [exact Hsub|]. apply not_quotable_simple; assumption.
+    + destruct s; [discriminate|]. exact Hd.
+Qed.
+
+Lemma render_name : forall s rest l, legal_symbol s -> delim rest -> lexes cfg rest l ->
+  lexes cfg (protectName repaired s false +++ rest) (name_tok s :: l).
+Proof.
+  intros s rest l Hl Hd Hr. unfold name_tok.
+  destruct (protect_cases repaired s) as [E | (E & _)]; rewrite E.
+  - rewrite in_bars_not_self. unfold in_bars, bar. rewrite !append_assoc. cbn [append].
+    apply step_quoted; assumption.
+  - rewrite String.eqb_refl. destruct (classify_bare s Hl E) as (C & N & A & D). rewrite <- C.
+    apply step_word; try assumption. apply delim_stops_sym. exact Hd.
+Qed.
+
+(* an interpreted (theory) symbol is printed raw *)
+Lemma render_raw : forall s rest l, is_simple cfg s = true -> delim rest -> lexes cfg rest l ->
+  lexes cfg (s +++ rest) (TSym s :: l).
+Proof.
+  intros s rest l H Hd Hr. unfold is_simple in H.
+  repeat (apply andb_true_iff in H as [H ?]).
+  repeat match goal with h : negb _ = true |- _ => apply negb_true_iff in h end.
+  assert (C : classify cfg s = TSym s) by (unfold classify; rewrite H0, H1; reflexivity).
+  rewrite <- C. apply step_word; try assumption. apply delim_stops_sym. exact Hd.
+Qed.
+
+(* a list of items separated by single blanks, closed by a parenthesis *)
+Lemma render_join : forall (A : Type) (pr : A -> string) (tk : A -> list token) xs rest l,
+  xs <> [] ->
+  Forall (fun x => forall rest l, delim rest -> lexes cfg rest l -> lexes cfg (pr x +++ rest) (tk x ++ l)) xs ->
+  lexes cfg rest l ->
+  lexes cfg (join " " (map pr xs) +++ String c_rp rest) (flat_map tk xs ++ TRP :: l).
+Proof.
+  intros A pr tk xs rest l Hne HF Hr. induction xs as [|x r IH]; [congruence|].
+  inversion HF as [|? ? Hx HF']; subst.
+  destruct r as [|y r'].
+  - cbn [map join flat_map]. rewrite app_nil_r. apply Hx; [apply delim_rp|]. apply step_rp; assumption.
+  - change (join " " (map pr (x :: y :: r'))) with (pr x +++ " " +++ join " " (map pr (y :: r'))).
+    rewrite !append_assoc. cbn [flat_map]. rewrite <- app_assoc.
+    apply Hx; [apply delim_space|]. cbn [append]. apply step_white; [exact Hspace|].
+    apply IH; [discriminate|exact HF'].
+Qed.
+
+(* a list of items each preceded by a blank, closed by a parenthesis *)
+Lemma render_args : forall (A : Type) (pr : A -> string) (tk : A -> list token) xs rest l,
+  Forall (fun x => forall rest l, delim rest -> lexes cfg rest l -> lexes cfg (pr x +++ rest) (tk x ++ l)) xs ->
+  lexes cfg rest l ->
+  lexes cfg (String.concat "" (map (fun a => " " +++ pr a) xs) +++ String c_rp rest) (flat_map tk xs ++ TRP :: l).
+Proof.
+  intros A pr tk xs rest l HF Hr. induction xs as [|x r IH].
+  - cbn [map String.concat append flat_map app]. apply step_rp; assumption.
+  - inversion HF as [|? ? Hx HF']; subst. cbn [map]. rewrite concat_empty_cons. rewrite !append_assoc.
+    cbn [append flat_map]. rewrite <- app_assoc. apply step_white; [exact Hspace|].
+    apply Hx.
+    + destruct (map (fun a : A => " " +++ pr a) r) as [|z zs] eqn:E.
+      * cbn [String.concat append]. apply delim_rp.
+      * rewrite concat_empty_cons. destruct r as [|r0 r1]; [discriminate|]. cbn [map] in E. inversion E; subst.
+        rewrite append_assoc. cbn [append]. apply delim_space.
+    + apply IH. exact HF'.
+Qed.
+
+End Render.
